@@ -133,7 +133,9 @@ func safeRead(in []byte) (res readResult) {
 			res.panic = fmt.Sprintf("%v\n%s", e, firstLines(string(debug.Stack()), 30))
 		}
 	}()
-	b, err := bundle.Read(gen.Source(in, gen.SourceModeOf(in)))
+	bsrc := gen.Source(in, gen.SourceModeOf(in))
+	b, err := bundle.Read(bsrc)
+	gen.Recycle(bsrc)
 	return readResult{b: b, err: err}
 }
 
@@ -287,8 +289,8 @@ func head(b []byte, n int) []byte {
 
 func genResp(t *rapid.T, hostile bool) refbundle.AsmResp {
 	r := refbundle.AsmResp{BodyLen: rapid.SampledFrom([]int{0, 1, 5, 23, 24, 100, 255, 256, 300}).Draw(t, "bodylen"), BodyTag: rapid.Uint64().Draw(t, "bodytag")}
-	st := rapid.SampledFrom([]string{"200", "200", "404", "301", "999", "100", "200", "200x", "200 ", "2000", "20", "", "abc", "9223372036854775808", "-20"}).Draw(t, "status")
-	if !hostile && (len(st) != 3 || st[0] < '0' || st[0] > '9' || st[2] > '9') {
+	st := rapid.SampledFrom([]string{"200", "200", "404", "301", "999", "100", "200", "200x", "200 ", " 200", "\t200", "200\n", "+200", "2e2", "0x1", "2000", "20", "", "abc", "9223372036854775808", "-20"}).Draw(t, "status")
+	if !hostile && (len(st) != 3 || st[0] < '0' || st[0] > '9' || st[1] < '0' || st[1] > '9' || st[2] < '0' || st[2] > '9') {
 		st = "200" // the unknown-section relation needs a base bundle that is valid by construction
 	}
 	r.Fields = append(r.Fields, refbundle.HeaderField{Name: ":status", Value: st})
@@ -296,7 +298,7 @@ func genResp(t *rapid.T, hostile bool) refbundle.AsmResp {
 	for i := 0; i < n; i++ {
 		r.Fields = append(r.Fields, refbundle.HeaderField{
 			Name:  rapid.SampledFrom([]string{"content-type", "x-a", "x-b", "etag", "vary", "x-a"}).Draw(t, "hn"),
-			Value: rapid.SampledFrom([]string{"text/html", "", "v", "a,b", strings.Repeat("z", 30)}).Draw(t, "hv"),
+			Value: rapid.SampledFrom([]string{"text/html", "", "v", "a,b", strings.Repeat("z", 30), " padded", "padded ", "  both  ", "\ttab", "tab\t", " ", "a  b", "cr\r\n", "\nlf", "nul\x00", "\x7f"}).Draw(t, "hv"),
 		})
 	}
 	if rapid.Bool().Draw(t, "statuslast") && len(r.Fields) > 1 {
